@@ -693,6 +693,11 @@ def rule_r4(ctx, rid="C02.R4"):
             if order_fact(t, pol, ">=", lambda x: dotted(x) == nvar, lambda x: norm(x) == "len(%s)" % data):
                 okb = True
     loops = [x for x in ast.walk(f.node) if isinstance(x, ast.While) and dotted(x.test) == data]
+    if not loops:
+        # `while True` with the same bottom exit: the first round sees non-empty data when a dominating test says so, and
+        # every later round a non-empty rest (the exit was not taken: n < len(data))
+        loops = [x for x in ast.walk(f.node) if isinstance(x, ast.While) and isinstance(x.test, ast.Constant) and x.test.value is True and any(y is c.ast for y in ast.walk(x))
+                 and any(pol and dotted(t) == data for (t, pol) in guards_of(g, c))]
     if okb and loops:
         ctx.r.ok(rid, "loop ends when n >= len(data) (and while data)", f.loc(brk[0].ast))
     else:
